@@ -78,7 +78,6 @@ func main() {
 	run.CheckFn = "PKI.check"
 	run.DiagFn = "PKI.diag"
 	run.CaseType = "PKI.case"
-	run.Scope = "Z"
 	run.ShardSize = 120
 	run.Rule = "certificates: well-formed certificates of the five classes with 0-2 of 27 mutations " +
 		"(usages, constraints, key ids, ISD-AS attributes), real x509 DER built per case, ValidateCert type compared; " +
@@ -90,7 +89,7 @@ func main() {
 	f := trcgen.NewFactory()
 
 	// 1. certificates
-	nc := run.Count(300, 20000)
+	nc := run.Count(300, 10000)
 	for i := 0; i < nc; i++ {
 		r := rng.Fork(uint64(i))
 		id := 1 + r.Intn(40)
@@ -129,12 +128,12 @@ func main() {
 			code = 0
 		}
 		run.Tally(fmt.Sprintf("cert:class%d-mut%d-type%d", cl, nm, code))
-		run.Add("cert", vgen.App("PKI.CCert", c.Gallina(), vgen.Z(int64(code))), c.Gallina(),
+		run.Add("cert", vgen.App("PKI.CCert", c.Gallina(), vgen.Z(int64(code)))+"%Z", c.Gallina(),
 			code != 0 || nm > 0, map[string]any{"class": cl, "mutations": muts, "impl_type": code})
 	}
 
 	// 2. payloads
-	nt := run.Count(900, 60000)
+	nt := run.Count(900, 30000)
 	for i := 0; i < nt; i++ {
 		r := rng.Fork(uint64(1000000 + i))
 		t := trcgen.GenTRC(r, uint64(r.Range(1, 3)), r.Chance(2, 5), trcgen.RandShape(r), 10*r.Intn(5))
@@ -163,7 +162,7 @@ func main() {
 		var verr error
 		id := -1
 		if p, msg := vgen.Recover(func() { verr = real.Validate() }); p {
-			id = run.Add("validate", vgen.App("PKI.CValidate", t.Gallina(), "98"), t.Gallina(), true,
+			id = run.Add("validate", vgen.App("PKI.CValidate", t.Gallina(), "98")+"%Z", t.Gallina(), true,
 				map[string]any{"mutations": muts, "panic": msg})
 			run.Violate(id, "TRC.Validate panicked: "+msg, muts)
 			continue
@@ -173,7 +172,7 @@ func main() {
 		for _, m := range muts {
 			run.Tally("mutation:" + m[:min(len(m), 24)])
 		}
-		id = run.Add("validate", vgen.App("PKI.CValidate", t.Gallina(), vgen.Z(int64(code))), t.Gallina(),
+		id = run.Add("validate", vgen.App("PKI.CValidate", t.Gallina(), vgen.Z(int64(code)))+"%Z", t.Gallina(),
 			true, map[string]any{"mutations": muts, "impl_code": code, "err": fmt.Sprint(verr),
 				"id": fmt.Sprintf("ISD%d-B%d-S%d", t.ISD, t.Base, t.Serial)})
 		if verr != nil {
